@@ -19,6 +19,7 @@ import (
 	"sort"
 	"strings"
 	"sync"
+	"sync/atomic"
 	"syscall"
 	"time"
 )
@@ -76,6 +77,8 @@ type Ctx struct {
 	exhaustive   bool
 	start        time.Time
 	inflight     string
+	inflightP    atomic.Pointer[string]
+	ticks        atomic.Int64
 }
 
 const maxDistinct = 4 << 20
@@ -213,6 +216,19 @@ func (c *Ctx) violation(sig, what string, witness any, stack string) {
 }
 
 var numRe = regexp.MustCompile(`0x[0-9a-fA-F]+|-?[0-9]+`)
+var sqCharRe = regexp.MustCompile(`'(?:[^'\\]|\\.){1,6}'`)
+var quotedRe = regexp.MustCompile(`"(?:[^"\\]|\\.)*"`)
+
+// NormErr makes an error text usable in a signature: quoted substrings
+// (tag names, field names) are dropped, repeated wrapper prefixes collapsed, numbers replaced by N.
+func NormErr(s string) string {
+	s = quotedRe.ReplaceAllString(s, "Q")
+	s = sqCharRe.ReplaceAllString(s, "Q")
+	for strings.Contains(s, "fail to decode tag Q: fail to decode tag Q: ") {
+		s = strings.ReplaceAll(s, "fail to decode tag Q: fail to decode tag Q: ", "fail to decode tag Q: ")
+	}
+	return NormMsg(s)
+}
 
 // NormMsg replaces numbers in a panic/error message by N so that signatures are stable.
 func NormMsg(s string) string {
@@ -312,16 +328,59 @@ func Try(fn func()) (val any, site string) {
 	return nil, ""
 }
 
-// Inflight records a description of the case about to run; it is printed if
-// the process dies with a fatal runtime error (written to a file lazily).
+// Inflight records a description of the case about to run and counts as
+// progress. The spin watchdog (EnableSpinWatch) writes it to disk if the
+// process stops making progress.
 func (c *Ctx) Inflight(desc string) {
-	c.inflight = desc
+	c.inflightP.Store(&desc)
+	c.ticks.Add(1)
 }
+
+// Tick counts progress without a description.
+func (c *Ctx) Tick() { c.ticks.Add(1) }
 
 // FlushInflight writes the in-flight description to disk (use before calls
 // that may kill the process: fatal runtime errors are not recoverable).
 func (c *Ctx) FlushInflight() {
-	_ = os.WriteFile(filepath.Join(c.OutDir, fmt.Sprintf("inflight-%s-%d.txt", c.Mode, c.Shard)), []byte(c.inflight), 0o644)
+	d := ""
+	if p := c.inflightP.Load(); p != nil {
+		d = *p
+	}
+	_ = os.WriteFile(filepath.Join(c.OutDir, fmt.Sprintf("inflight-%s-%d.txt", c.Mode, c.Shard)), []byte(d), 0o644)
+}
+
+// EnableSpinWatch starts the progress monitor for "never loops without
+// consuming input": if the process burns cpuLimit CPU-seconds (getrusage, not
+// wall clock) while no Inflight/Tick call happens, the in-flight case is
+// recorded as a violation "spin-without-progress" and the process ends.
+// Monitors that enable it must call Inflight or Tick at least once per case and
+// keep single cases far below cpuLimit on correct code (inputs <= 256 KiB).
+func (c *Ctx) EnableSpinWatch(sub string, cpuLimit float64) {
+	go func() {
+		last := c.ticks.Load()
+		lastCPU := CPUSeconds()
+		for {
+			time.Sleep(500 * time.Millisecond)
+			t := c.ticks.Load()
+			if t != last {
+				last, lastCPU = t, CPUSeconds()
+				continue
+			}
+			if CPUSeconds()-lastCPU >= cpuLimit {
+				c.FlushInflight()
+				d := ""
+				if p := c.inflightP.Load(); p != nil {
+					d = *p
+				}
+				buf := make([]byte, 1<<16)
+				n := runtime.Stack(buf, true)
+				site, _ := panicSite(buf[:n])
+				c.violation(sub+"/spin-without-progress/"+site, fmt.Sprintf("%.0f CPU-seconds consumed without finishing the in-flight case", cpuLimit), map[string]any{"inflight": d}, string(buf[:min(n, 6000)]))
+				c.finish(true)
+				os.Exit(4)
+			}
+		}
+	}()
 }
 
 // CPUSeconds returns user+system CPU time of the process.
